@@ -137,10 +137,14 @@ func (g *streamGen) choose(x *mc.Exec, k int) (stream []byte, name string, ok bo
 	case 0, 1: // A: dynamic block; B: fixed block
 		var blk synth.Block
 		var shape string
+		encOnly := false
 		if fam == 0 {
 			ls := g.lits[x.Choose(len(g.lits), "lit-shape")]
 			ds := g.dists[x.Choose(len(g.dists), "dist-shape")]
 			enc := x.Choose(3, "hdr-enc")
+			// quick tier: the header-encoding dimension is explored with the literal prefix only; symbol sequences use the
+			// run-length coded header (the two dimensions meet only in the header parser)
+			encOnly = !g.cfg.Thorough && enc != synth.EncRepeat
 			blk = synth.Block{Final: true, Type: 2, LitLens: ls.Lens, DistLens: ds.Lens, Enc: enc}
 			shape = fmt.Sprintf("dyn(%s,%s,enc%d)", ls.Name, ds.Name, enc)
 		} else {
@@ -156,8 +160,11 @@ func (g *streamGen) choose(x *mc.Exec, k int) (stream []byte, name string, ok bo
 		}
 		syms := litPrefix(alpha, 5)
 		kk := k
-		if fam == 1 || strings.Contains(shape, "skew15") {
+		if fam == 1 || strings.Contains(shape, "skew15") || strings.Contains(shape, "maxbits") {
 			kk = k + 1
+		}
+		if encOnly {
+			kk = 0
 		}
 		for i := 0; i < kk; i++ {
 			if len(alpha) == 0 {
